@@ -3,7 +3,11 @@
    op "case": a process given as records (statm, mappings, …). The driver renders the three
               procfs files with the kernel-side renderers of Spec/C13.lean (so implementation
               and model read byte-identical content) and prints model(x) and spec(x).
-   op "raw" : arbitrary file contents (malformed / adversarial); model only. -/
+   op "raw" : arbitrary file contents (malformed / adversarial); model only.
+   optional "hist" (both ops): a history of /proc/meminfo contents, `virtual_memory()` and
+              `memory_percent(t)` calls starting from an empty `_TOTAL_PHYMEM`; the driver threads
+              the model state (Model/C13Pct.lean) and prints, per step, the model's answer, the
+              answer relative to the CURRENT total (spec) and whether the cache is stale. -/
 import PsutilModel.Base.Proto
 import PsutilModel.Model.C13Gen
 import PsutilModel.Spec.C13
@@ -83,6 +87,76 @@ def specPct (pagesize : Nat) (st : Statm) (ms : List Mapping) (p : Pct) : Json :
   | none => jObj [("exc", Json.str "ValueError")]
   | some v => if total > 0 then jObj [("ok", jRat (specPercent v total))] else Json.null
 
+
+/-! ### histories of the total-memory cache -/
+
+inductive HStep
+  | meminfoKV (ls : List KV)
+  | meminfoRaw (b : Bytes)
+  | vm
+  | pct (memtype : String)
+
+def parseHStep (j : Json) : R HStep := do
+  let op ← strF j "op"
+  if op == "meminfo" then return .meminfoKV (← listF parseKV j "kv")
+  else if op == "meminfoRaw" then return .meminfoRaw (← bytesF j "data")
+  else if op == "vm" then return .vm
+  else if op == "pct" then return .pct (← strF j "memtype")
+  else .error s!"bad hist op {op}"
+
+/-- current `/proc/meminfo`: the records (when it was rendered from records) and the bytes -/
+structure MI where
+  recs : Option (List KV)
+  bytes : Bytes
+
+def specTotal (mi : MI) : Option Nat :=
+  match mi.recs with
+  | some ls => if wfMeminfo ls then some (memTotal ls) else none
+  | none => none
+
+/-- one step: (model answer, spec answer, cache stale?, meminfo bytes written) -/
+def histStep (info full : Res (List Nat)) (specVal : String → Option (Option Nat))
+    (st : HStep) (mi : MI) (s : PState) : (Json × MI × PState) :=
+  let stale : Bool := match truthy s.cache, specTotal mi with
+    | some t, some cur => t != cur
+    | _, _ => false
+  match st with
+  | .meminfoKV ls =>
+    let b := renderMeminfo ls
+    (jObj [("op", Json.str "meminfo"), ("file", jBytes b), ("wf", Json.bool (wfMeminfo ls))], ⟨some ls, b⟩, s)
+  | .meminfoRaw b => (jObj [("op", Json.str "meminfo"), ("file", jBytes b), ("wf", Json.bool false)], ⟨none, b⟩, s)
+  | .vm =>
+    let (r, s') := virtualMemory pcfg mi.bytes s
+    let sp : Json := match specTotal mi with
+      | some t => jObj [("ok", jNat t)]
+      | none => Json.null
+    (jObj [("op", Json.str "vm"), ("model", jRes jNat r), ("spec", sp), ("stale", Json.bool stale)], mi, s')
+  | .pct mt =>
+    let (r, s') := memoryPercentS cfg pcfg mt info full mi.bytes s
+    -- spec: 100 * field / the total the kernel reports NOW
+    let sp : Json := match specVal mt with
+      | none => Json.null                                     -- the process files are outside the spec's domain
+      | some none => jObj [("exc", Json.str "ValueError")]    -- unknown memtype
+      | some (some v) =>
+        match specTotal mi with
+        | none => Json.null
+        | some t => if t > 0 then jObj [("ok", jRat (specPercent v (t : Int)))] else jObj [("exc", Json.str "ValueError")]
+    (jObj [("op", Json.str "pct"), ("model", jRes jRat r), ("spec", sp), ("stale", Json.bool stale)], mi, s')
+
+def runHist (info full : Res (List Nat)) (specVal : String → Option (Option Nat)) :
+    List HStep → MI → PState → List Json
+  | [], _, _ => []
+  | st :: rest, mi, s =>
+    let (j, mi', s') := histStep info full specVal st mi s
+    j :: runHist info full specVal rest mi' s'
+
+def histOut (j : Json) (info full : Res (List Nat)) (specVal : String → Option (Option Nat)) : R (List (String × Json)) := do
+  match j.getObjVal? "hist" with
+  | .error _ => return []
+  | .ok h =>
+    let steps ← asList parseHStep h
+    return [("hist", Json.arr (runHist info full specVal steps ⟨none, []⟩ ⟨none⟩).toArray)]
+
 def handle (_ : Unit) (j : Json) : R (Unit × Json) := do
   let op ← strF j "op"
   let pagesize ← natF j "pagesize"
@@ -96,7 +170,10 @@ def handle (_ : Unit) (j : Json) : R (Unit × Json) := do
     let statm ← bytesF j "statm"
     let rb ← bytesF j "rollupData"
     let rollup ← parseRollupMode mode rb
-    return ((), jObj [("model", jObj (modelAll probe zombie hasRollup pagesize rollup smaps statm pcts))])
+    let info := memoryInfo cfg pagesize statm
+    let full := memoryFullInfo cfg hasRollup pagesize rollup smaps statm
+    let ho ← histOut j info full (fun _ => none)
+    return ((), jObj ([("model", jObj (modelAll probe zombie hasRollup pagesize rollup smaps statm pcts))] ++ ho))
   else if op == "case" then
     let ms ← listF parseMapping j "ms"
     let cols ← listF asNat j "statm"
@@ -109,25 +186,37 @@ def handle (_ : Unit) (j : Json) : R (Unit × Json) := do
     let rollup ← parseRollupMode mode rb
     -- the full domain of the property (names ending in blanks included), whatever the code does
     let wf := wfSmaps false ms && ms.all (fsConsistent probe)
+    -- the wider domain of C13_maps_roundtrip_general: own key lists, no stale row key
+    let wfG := wfSmapsOwn false ms && noStale [] ms && ms.all (fsConsistent probe)
     let rows := ms.map specRow
     -- the spec speaks about well-formed kernel content; empty smaps: [] / ZombieProcess
     let specMaps : Json :=
       if ms.isEmpty then (if zombie then jObj [("exc", Json.str "ZombieProcess")] else jObj [("ok", jList jRow [])])
-      else if wf then jObj [("ok", jList jRow rows)] else Json.null
+      else if wf || wfG then jObj [("ok", jList jRow rows)] else Json.null
     let specGrp : Json :=
       if ms.isEmpty then (if zombie then jObj [("exc", Json.str "ZombieProcess")] else jObj [("ok", jList jGRow [])])
-      else if wf then jObj [("ok", jList jGRow (specGrouped rowKeys.length rows))] else Json.null
+      else if wf || wfG then jObj [("ok", jList jGRow (specGrouped rowKeys.length rows))] else Json.null
     let fullOk := ms.isEmpty || wf
     let spec := jObj [
       ("info", jObj [("ok", jList jNat (specMemInfo pagesize st))]),
       ("full", if fullOk then jObj [("ok", jList jNat (specFullInfo pagesize st ms))] else Json.null),
       ("maps", specMaps), ("grouped", specGrp),
       ("pct", jList (fun p => if fullOk then specPct pagesize st ms p else Json.null) pcts)]
-    return ((), jObj [
+    let info := memoryInfo cfg pagesize statm
+    let full := memoryFullInfo cfg hasRollup pagesize rollup smaps statm
+    let specVal : String → Option (Option Nat) := fun mt =>
+      if fullOk then some ((pfullmemNames.zip (specFullInfo pagesize st ms)).lookup mt) else none
+    let ho ← histOut j info full specVal
+    -- what the never-cleared dict makes of non-uniform key lists (C13_maps_nonuniform_exact)
+    let inh : Json :=
+      if !ms.isEmpty && wfSmapsOwn false ms && ms.all (fsConsistent probe)
+      then jObj [("ok", jList jRow (inheritRows false [] ms))] else Json.null
+    return ((), jObj ([
       ("files", jObj [("smaps", jBytes smaps), ("statm", jBytes statm), ("rollup", jBytes rb)]),
-      ("wf", Json.bool wf),
+      ("wf", Json.bool wf), ("wfOwn", Json.bool (wfSmapsOwn false ms)), ("uniform", Json.bool (uniformKeys ms)),
+      ("nostale", Json.bool (noStale [] ms)), ("inherit", inh),
       ("model", jObj (modelAll probe zombie hasRollup pagesize rollup smaps statm pcts)),
-      ("spec", spec)])
+      ("spec", spec)] ++ ho))
   else .error s!"unknown op {op}"
 
 def main : IO Unit := Proto.run () (total handle)
